@@ -523,8 +523,8 @@ def findings_stream(ctx):
         if e["status"] == "known":
             ctx.violation(key=e["key"], what=why, case=c, observed=brief(r), how=HOW[c["kind"]])
         else:
-            ctx.violation(key="regressed:" + e["key"], what="REGRESSION of a repaired defect (" + e["what"] + "): " + why,
-                          case=c, observed=brief(r), how=HOW[c["kind"]])
+            ctx.violation(key="regressed:" + e["key"], what="the replayed input of a repaired defect fails the Spec again: " + why +
+                          "   [the repaired defect was: " + e["what"] + "]", case=c, observed=brief(r), how=HOW[c["kind"]])
 
 
 def generated_cases(ctx):
@@ -548,10 +548,18 @@ def generated_cases(ctx):
 
 
 def run(ctx):
+    usable = set()
     for be in impl.BACKENDS:
-        leaf_texts(be)
-    findings_stream(ctx)
-    cases = list(generated_cases(ctx))
+        try:
+            leaf_texts(be)
+            usable.add(be)
+        except vlib.InternalError as e:
+            # not even a query without injected calls translates: the pipeline streams cannot run; the unit
+            # streams still judge the code and the search looks for a failing input
+            ctx.broken.append({"kind": "pipeline-unusable", "backend": be, "detail": str(e)})
+    if len(usable) == len(impl.BACKENDS):
+        findings_stream(ctx)
+    cases = [(s, c) for s, c in generated_cases(ctx) if c["kind"] != "query" or c["backend"] in usable]
     # generated cases that fall into a defect exclusion are decided first and dropped from the main stream
     step = 4000
     for i in range(0, len(cases), step):
@@ -642,12 +650,14 @@ def search(ctx, broken):
     cases += [("search", gen.subst_case(rng)) for _ in range(20000)]
     cases += [("search", gen.build_case(rng)) for _ in range(4000)]
     cases += [("search", gen.find_case(rng)) for _ in range(4000)]
-    for _ in range(1500):
-        be = rng.choice(["atlas"] * 6 + ["cms_aod", "cms_miniaod"])
-        cases.append(("search", gen.query_case(rng, be, gen_table(be))))
-    for e in ctx.known_entries("fixed"):
-        for c in (e["input"]["cases"] if "cases" in e["input"] else [e["input"]]):
-            cases.insert(0, ("search", c))
+    usable = [be for be in impl.BACKENDS if be in _LEAF_TEXT]
+    if usable:
+        for _ in range(1500):
+            be = rng.choice(usable)
+            cases.append(("search", gen.query_case(rng, be, gen_table(be))))
+        for e in ctx.known_entries("fixed"):
+            for c in (e["input"]["cases"] if "cases" in e["input"] else [e["input"]]):
+                cases.insert(0, ("search", c))
     best = None
     for i in range(0, len(cases), 4000):
         bad = evaluate(ctx, cases[i:i + 4000], report=False)
